@@ -497,8 +497,13 @@ class FuzzyTerm(ExpandingTerm):
                 ^ hash(self.constantscore))
 
     def _btexts(self, ixreader):
-        return ixreader.terms_within(self.fieldname, self.text, self.maxdist,
-                                     prefix=self.prefixlength)
+        # terms_within() yields decoded words; like every other _btexts()
+        # implementation this must yield the terms as bytes
+        to_bytes = ixreader.schema[self.fieldname].to_bytes
+        for word in ixreader.terms_within(self.fieldname, self.text,
+                                          self.maxdist,
+                                          prefix=self.prefixlength):
+            yield to_bytes(word)
 
     def replace(self, fieldname, oldtext, newtext):
         q = copy.copy(self)
